@@ -3,3 +3,6 @@
 package vlib
 
 const faketimeBuild = true
+
+// Faketime reports whether the binary runs on the virtual clock.
+const Faketime = true
